@@ -3,7 +3,7 @@
 From Coq Require Import NArith Bool List Lia.
 From stdpp Require Import base list option.
 From RecordUpdate Require Import RecordSet.
-From RC Require Import Hdr Machine RunInd Clean CleanFrame CleanStep CleanStep2 CleanThm CleanReg.
+From RC Require Import Hdr Machine RunInd Clean CleanFrame CleanStep CleanStep2 CleanThm CleanReg CleanLog CleanU CleanUThm.
 Import ListNotations RecordSetNotations.
 
 Definition exK : conf := f5_conf.
@@ -202,3 +202,28 @@ Example ex_register_reentrant_sat :
   (o_cleaner <$> get X.1 0) = Some (Some 4) /\
   slot_at X.1 4 2 = Some (MAction 2 1) /\ next_aid ex_m8 = 0 /\ next_aid X.1 = 3.
 Proof. intros X. split; [apply prog_CI|]. vm_compute. repeat split. Qed.
+
+(** [C10_never_lost] on the F6 program: the run is fuel-free; of the three aids allocated, all
+    have run exactly once at the end, none is stored *)
+Example ex_never_lost_sat :
+  let m := run_main K6 P6 60 (init K6) in
+  fuel_free m /\ next_aid m = 3 /\
+  forall a, a < 3 -> count_occ Nat.eq_dec (executed_aids (log m)) a = 1.
+Proof.
+  intros m. split; [|split; [vm_compute; reflexivity|]].
+  - intros o Ho. apply elem_of_list_In in Ho. revert Ho. vm_compute. intuition discriminate.
+  - intros a Ha. destruct a as [|[|[|a]]]; [vm_compute; reflexivity..|lia].
+Qed.
+
+(** [C10_drop_value_post]: its hypotheses at the state in which the crate drops the map value
+    of [ex_m] (Cleaner field cleared): [PreU] holds, and [PostU] is what [run] delivers *)
+Example ex_drop_value_post_sat :
+  PreU (KDropValue 1) ex_u /\
+  PostU (KDropValue 1) ex_u (run exK exP 31 (KDropValue 1) ex_u).1 (run exK exP 31 (KDropValue 1) ex_u).2 /\
+  (run exK exP 31 (KDropValue 1) ex_u).2 = OPanic.
+Proof.
+  destruct ex_u_ok as [HI Hu]. split; [|split].
+  - split; [exact HI|]. intros _. apply unlinked_cv, Hu.
+  - exact (run_clean exK exP 31 (KDropValue 1) ex_u (conj HI I)).
+  - vm_compute. reflexivity.
+Qed.
